@@ -131,8 +131,17 @@ func init() {
 // alternative is known.
 // typeSpecs: values for parameters that take a type specifier (they are documented as symbols): names of types and
 // compound specifiers, well formed and not
-var typeSpecs = []string{"e:'list", "e:'vector", "e:'string", "e:'octets", "e:'bit-vector", "e:'fixnum", "e:'integer", "e:'float", "e:'character", "e:'array", "e:'t", "nil",
+var typeSpecs = []string{"e:'signed-byte", "e:'unsigned-byte", "e:'octet", "e:'byte", "e:'bit", "e:'bytes", "e:'bignum", "e:'short-float", "e:'single-float", "e:'double-float",
+	"e:'long-float", "e:'rational", "e:'ratio", "e:'complex", "e:'symbol", "e:'assoc", "e:'hash-table", "e:'function", "e:'number", "e:'real", "e:'sequence", "e:'cons", "e:'null", "e:'keyword",
+	"e:'(signed-byte 4)", "e:'(unsigned-byte 4)", "e:'(signed-byte 0)", "e:'(unsigned-byte *)", "e:'(bit-vector 3)", "e:'(bit-vector 0)", "e:'(octets 1)", "e:'(string 2)", "e:'(integer * 3)", "e:'(float 0.0 1.0)",
+	"e:'(list 2)", "e:'(complex float)", "e:'(and fixnum (not bit))", "e:'(eql 1)", "e:'(not)", "e:'(or)", "e:'(and)", "e:'(signed-byte x)", "e:'(vector * -1)", "e:'(array * *)", "e:'(array t 2)",
+	"e:'list", "e:'vector", "e:'string", "e:'octets", "e:'bit-vector", "e:'fixnum", "e:'integer", "e:'float", "e:'character", "e:'array", "e:'t", "nil",
 	"e:'(vector t)", "e:'(vector * 0)", "e:'(vector character 2)", "e:'(array t (2))", "e:'(integer 0 5)", "e:'(or fixnum string)", "e:'(member a b)", "e:'(satisfies evenp)", "e:'(mod 4)", "e:'(vector)", "e:'(nope 1)"}
+
+func isTypeSpec(p param) bool {
+	vs := valuesFor(p)
+	return len(vs) > 0 && &vs[0] == &typeSpecs[0]
+}
 
 // valuesFor: the value set of a parameter, by its name where the documented type says too little, else by its type.
 func valuesFor(p param) []string {
@@ -345,7 +354,18 @@ func pairCases(fn string, ps []param, _ []int) (cases []Case) {
 			}
 			n *= len(sets[i])
 		}
-		if n > 300 {
+		limit := 300
+		if len(ps) == 2 && (isTypeSpec(ps[0]) != isTypeSpec(ps[1])) {
+			// (coerce object type), (typep object type) ..: every pool object, every bit-vector and the parameter's own
+			// value set x every type specifier
+			o := 0
+			if isTypeSpec(ps[0]) {
+				o = 1
+			}
+			sets[o] = append(append(append([]string{}, poolNames()...), bitVectors...), sets[o]...)
+			n, limit = len(sets[0])*len(sets[1]), 20000
+		}
+		if n > limit {
 			return nil
 		}
 		for _, va := range sets[0] {
